@@ -201,6 +201,38 @@ def special_worlds():
         'topology': {'obs': {'all': ('branch',), 'own': ('mine',)},
                      'decl': {'b': ('branch',)}},
         'script': [('update', 2)]}))
+    # '**' over a glob store that another process empties (t=1) and
+    # refills (t=3), and a glob port on the compartment that holds the
+    # observer itself (one entry per child, processes included)
+    for issuer in ('P', 'S'):
+        n0 = 0 if issuer == 'P' else 1
+        mgr = {'cls': issuer, 'pid': 'mgr', 'ts': 1, 'log_states': False,
+               'schema': {'agents': {'*': {'m': leaf(1)}}},
+               'update': {'$n': {n0: {'agents': {'_delete': ['a', 'b']}},
+                                 n0 + 2: {'agents': {'_add': [{
+                                     'key': 'c', 'state': {'m': 3}}]}}},
+                          '$else': {}}}
+        spec = {
+            'processes': {
+                'obs': {'cls': 'P', 'pid': 'obs', 'ts': 1,
+                        'log_snapshot': True,
+                        'schema': {'all': '**'}, 'update': {}},
+                'cell': {'lister': {'cls': 'P', 'pid': 'lister', 'ts': 1,
+                                    'log_snapshot': True,
+                                    'schema': {'me': {'*': {}}},
+                                    'update': {}}}},
+            'steps': {}, 'flow': {},
+            'topology': {'obs': {'all': ('agents',)},
+                         'mgr': {'agents': ('agents',)},
+                         'cell': {'lister': {'me': ()}}},
+            'state': {'agents': {'a': {'m': 1}, 'b': {'m': 2}}},
+            'script': [('update', 5)]}
+        if issuer == 'P':
+            spec['processes']['mgr'] = mgr
+        else:
+            spec['steps']['mgr'] = mgr
+            spec['flow']['mgr'] = []
+        out.append((f'starstar-emptied:{issuer}', spec))
     # two processes declare different nested sub-variables of one glob store
     for nested in (True, False):
         sub_p = {'boundary': {'mass': leaf(1.0)}} if nested else \
@@ -426,6 +458,35 @@ def run_special(job, acc):
                     V('C07.view', 'starstar-port',
                       f'"**" port: states {ev[6]}, hierarchy gives {want}')
                     return
+        return
+    if label.startswith('starstar-emptied'):
+        snap = None
+        seen_empty = False
+        for ev in ex.trace:
+            if ev[0] == 'snap' and ev[2] in ('obs', 'lister'):
+                snap = ev[5]
+            if ev[0] == 'invoke' and ev[2] == 'obs':
+                want = {'all': snap.get('agents')}
+                seen_empty = seen_empty or want['all'] == {}
+                if ev[6] != want:
+                    V('C07.view', 'starstar-port-over-emptied-store',
+                      f'"**" port at t={ev[4]}: states {ev[6]}, the '
+                      f'hierarchy gives {want}')
+                    return
+            if ev[0] == 'invoke' and ev[2] == 'lister':
+                got = ev[6].get('me')
+                ok = isinstance(got, dict) and set(got) == {'lister'} and \
+                    isinstance(got['lister'], tuple) and len(
+                        got['lister']) == 2
+                if not ok:
+                    V('C07.view', 'compartment-glob-child-shape',
+                      f'glob port on the compartment at t={ev[4]}: states '
+                      f'{ev[6]}; expected one entry per child, a child '
+                      f'that holds a process as (process, topology)')
+                    return
+        if not seen_empty:
+            V('C07.view', 'starstar-world-vacuous',
+              'the store was never seen empty')
         return
     if label.startswith('nested-glob'):
         snap, views = None, set()
@@ -724,3 +785,6 @@ RULE += (
 
 RULE += (
     ' Observer mode wait: timestep 1.5 under a script of non-forcing run_for(1) calls - the observer waits across the calls while the structure changes and is shown the current projection when it runs.')
+
+RULE += (
+    ' Special worlds starstar-emptied: a "**" port over a glob store that another process (or step) empties and refills, and a glob port on the compartment that holds the observing process itself (a child that holds a process is shown as (process, topology)).')
